@@ -67,6 +67,11 @@ struct UnitToml {
     /// (left alone) when B contains `continue`
     #[serde(default)]
     expand_values_mut_loops: bool,
+    /// R35: `match E.as_str() { "A" => a, "B" => b, _ => d }` (string-literal arms without guards, the wildcard last) ->
+    /// `if vx_str_is(&E, "A") { a } else if vx_str_is(&E, "B") { b } else { d }` (Verus does not reason about string patterns: it
+    /// treats the choice of arm as opaque; the if-chain is the meaning of the match, first arm first)
+    #[serde(default)]
+    expand_str_match: bool,
     /// R26: `cast!(A, M)` is expanded to `A.cast(M).map_err(|e| RactorErr::from(e))`, the body of `macro_rules! cast` in
     /// ractor/src/macros.rs (checked against the file on every run: a different definition => undecided)
     #[serde(default)]
@@ -370,6 +375,7 @@ struct Rewriter<'a> {
     expand_option_combinators: bool,
     expand_option_filter: bool,
     expand_values_mut_loops: bool,
+    expand_str_match: bool,
     chainmap: Vec<(syn::Expr, syn::Expr)>,
     closure_method_map: BTreeMap<String, String>,
     expand_cast_macro: bool,
@@ -958,6 +964,30 @@ impl<'a> VisitMut for Rewriter<'a> {
                 f.body.stmts.push(syn::Stmt::Expr(syn::parse_quote!(if #cond { } else { #(#rest)* }), None));
                 self.rules.insert("R24".into());
             }
+        }
+        // R35: match on `E.as_str()` with string-literal arms -> if-chain over `vx_str_is(&E, "lit")`
+        if self.expand_str_match {
+            let mut repl: Option<syn::Expr> = None;
+            if let syn::Expr::Match(mt) = e {
+                if let syn::Expr::MethodCall(mc) = &*mt.expr {
+                    if mc.method == "as_str" && mc.args.is_empty() && !mt.arms.is_empty() {
+                        let n = mt.arms.len();
+                        let shape_ok = mt.arms.iter().enumerate().all(|(i, a)| a.guard.is_none() && if i + 1 == n { matches!(a.pat, syn::Pat::Wild(_)) } else {
+                            matches!(&a.pat, syn::Pat::Lit(l) if matches!(l.lit, syn::Lit::Str(_))) });
+                        if shape_ok {
+                            let recv = (*mc.receiver).clone();
+                            let mut acc: syn::Expr = { let b = &mt.arms[n - 1].body; syn::parse_quote!({ #b }) };
+                            for a in mt.arms[..n - 1].iter().rev() {
+                                let lit = match &a.pat { syn::Pat::Lit(l) => l.lit.clone(), _ => unreachable!() };
+                                let b = &a.body;
+                                acc = syn::parse_quote!(if vx_str_is(&#recv, #lit) { #b } else #acc);
+                            }
+                            repl = Some(acc);
+                        }
+                    }
+                }
+            }
+            if let Some(r) = repl { *e = r; self.rules.insert("R35".into()); }
         }
         // R34: `for P in E.values_mut() { B }` -> index loop over the stand-in enumeration of the map's values
         if self.expand_values_mut_loops {
@@ -2263,6 +2293,7 @@ fn main() {
             expand_option_combinators: unit_toml.expand_option_combinators,
             expand_option_filter: unit_toml.expand_option_filter,
             expand_values_mut_loops: unit_toml.expand_values_mut_loops,
+            expand_str_match: unit_toml.expand_str_match,
             closure_method_map: unit_toml.closure_method_map.clone(),
             expand_cast_macro: unit_toml.expand_cast_macro,
             select_biased,
